@@ -82,6 +82,24 @@ def kwarg(call: ast.Call, name: str):
     return None
 
 
+def bound_args(call: ast.Call, fdef) -> dict:
+    """parameter name -> argument expression, binding positional arguments
+    through the callee's signature (`self`/`cls` of methods skipped)"""
+    params = [a.arg for a in fdef.args.posonlyargs + fdef.args.args]
+    if params and params[0] in ("self", "cls"):
+        params = params[1:]
+    out = {}
+    for i, a in enumerate(call.args):
+        if isinstance(a, ast.Starred):
+            break
+        if i < len(params):
+            out[params[i]] = a
+    for kw in call.keywords:
+        if kw.arg is not None:
+            out[kw.arg] = kw.value
+    return out
+
+
 def arg_or_kw(call: ast.Call, idx: int, name: str):
     v = kwarg(call, name)
     if v is not None:
